@@ -6,7 +6,9 @@ from harness import c01
 PROPERTY = "C07"
 RULE = ("simulated races as in C01 plus small sample queues (queue.Full), down-sampling factors 1-3 and long tasks that cross the 30 s "
         "periodic post-processing tick; every trace is projected to pipeline events (request/ship/deliverU/postprocess/handover/deliverR) "
-        "carrying the ids that moved and replayed through Samples.step; signature = model branch tags + scenario class")
+        "carrying the ids that moved and replayed through Samples.step; signature = model branch tags + scenario class; driver_step_boundaries: "
+        "generated interleavings of shipments, deliveries, periodic wake-ups and join point messages over several steps on the real DriverActor / Driver / "
+        "BenchmarkCoordinator handlers, replayed through Samples.dstep, oracle = one record of each kind per generated request at race control")
 TRUSTED = ["the simulator's rules stand for Thespian", "pickle/zlib round trip of the in-memory store memento is exercised, not modelled",
            "dependent timings come from the real runner.Composite / RequestTiming issuing simulated sub-requests; the values of the timings are C18's subject, "
            "their number, labels and sample type are in the record layer of the model (Samples.recordsOf)"]
@@ -579,8 +581,266 @@ def run_ticks(ctx, case):
     ctx.sig(["ticks", m.get("tags"), case["finish_at"] is None, bool(case["markers"])], nontrivial=case["n"] > 1)
 
 
+# ---------------------------------------------------------------------------------------------
+# the step boundary: WHEN the driver hands its store over.  The real DriverActor handlers (receiveMsg_UpdateSamples,
+# receiveMsg_WakeupMessage with its real timer, receiveMsg_JoinPointReached -> Driver.joinpoint_reached -> move_to_next_task /
+# on_task_finished / on_benchmark_complete) on instances of the real classes, messages pickled, the real BenchmarkCoordinator
+# receiving TaskFinished / BenchmarkComplete; the generator decides the interleaving of shipments, deliveries, periodic
+# post-processing wake-ups and join point messages of several workers over several steps (per worker: samples before its join
+# point message, as Worker.receiveMsg_WakeupMessage / drive send them).
+# ---------------------------------------------------------------------------------------------
+def gen_boundaries(ctx):
+    rng = ctx.rng
+    for _ in range(ctx.budget):
+        W = rng.choice([1, 2, 2, 3])
+        steps = rng.choice([1, 2, 3, 4])
+        factor = rng.choice([1, 1, 1, 1, 2, 3])
+        script = []
+        for k in range(steps):
+            empty_step = rng.random() < (0.5 if k == 0 else 0.15)  # the artificial first join point, steps that measure nothing
+            # per worker: bursts of requests with shipments in between, then the last shipment and the join point message
+            lanes = []
+            for w in range(W):
+                lane = []
+                if not empty_step and rng.random() < 0.9:
+                    for _ in range(rng.choice([1, 1, 2, 3])):
+                        lane.append(["requests", w, rng.choice([1, 1, 2, 3, 5, 8])])
+                        if rng.random() < 0.5:
+                            lane += [["ship", w], ["deliver", w]]
+                    lane += [["ship", w], ["deliver", w]]
+                lane.append(["joinpoint", w])
+                lanes.append(lane)
+            # where the driver's own wake-ups fall: anywhere, and often right before a join point message (after the shipments)
+            merged = []
+            while any(lanes):
+                lane = rng.choice([l for l in lanes if l])
+                op = lane.pop(0)
+                if op[0] == "joinpoint":
+                    r = rng.random()
+                    if r < 0.35:
+                        merged.append(["tick"])  # a wake-up on which the periodic post-processing is due
+                    elif r < 0.45:
+                        merged.append(["wake"])  # a wake-up on which it is not
+                elif rng.random() < 0.08:
+                    merged.append(["tick"])
+                merged.append(op)
+                if op[0] == "joinpoint" and rng.random() < 0.1:
+                    merged.append(["tick"])
+            script += merged
+            # race control receives the hand-over now, or later (messages in flight)
+            for _ in range(rng.choice([0, 1, 1, 1, 2])):
+                script.append(["receive"])
+        yield {"workers": W, "steps": steps, "factor": factor, "script": script, "test_mode": rng.random() < 0.5,
+               "deps": rng.choice([0, 0, 1, 2]), "warmup": rng.choice([0, 0, 3])}
+
+
+def run_boundaries(ctx, case):
+    import collections
+    import logging
+    import pickle
+    import types as _t
+    import zlib
+
+    from esrally import metrics, racecontrol, telemetry
+    from esrally.driver import driver
+    from esrally.track import track
+    from harness import sim_race
+
+    real = lambda f: getattr(f, "__wrapped__", f)
+    sampler_add = real(driver.Sampler.add)
+    W, N, factor = case["workers"], case["steps"], case["factor"]
+    cfg = sim_race.make_config({"test_mode": case["test_mode"]})
+    log = logging.getLogger("esrally.driver.driver")
+    task = track.Task("boundary", track.Operation("boundary", "sim"), clients=W)
+    dstore = metrics.metrics_store(cfg=cfg, track="simtrack", challenge="default", read_only=False)
+    to_rc, to_workers, armed = collections.deque(), [], []
+    DA = driver.DriverActor
+    da = object.__new__(DA)
+    drv = object.__new__(driver.Driver)
+    da.__dict__.update(driver=drv, post_process_timer=0, logger=log, benchmark_actor="rc", status="benchmark_started",
+                       wakeupAfter=lambda d, payload=None: armed.append(payload),
+                       send=lambda dst, m: (to_rc.append(pickle.loads(pickle.dumps(m))) if dst == "rc" else to_workers.append((dst, m))))
+    drv.__dict__.update(raw_samples=[], most_recent_sample_per_client={}, metrics_store=dstore, logger=log, current_step=-1, number_of_steps=N - 1,
+                        quiet=True, config=cfg, driver_actor=da, workers=[f"w{w}" for w in range(W)], currently_completed=0,
+                        workers_completed_current_step={}, complete_current_task_sent=False, generated_api_key_ids=[], default_sync_es_client=None,
+                        telemetry=telemetry.Telemetry(devices=[]), tasks_per_join_point=[[task]] * (N + 1),
+                        sample_post_processor=driver.SamplePostprocessor(dstore, factor, {}, {}))
+    workers, sent = [], []
+    for w in range(W):
+        ws = object.__new__(driver.Worker)
+        ws.__dict__.update(sampler=driver.Sampler(start_timestamp=0.0, buffer_size=1 << 20), worker_id=w, driver_actor="driver",
+                           send=lambda dst, m: sent.append(pickle.loads(pickle.dumps(m))), logger=log)
+        workers.append(ws)
+    rc = object.__new__(racecontrol.BenchmarkCoordinator)
+    rstore = metrics.InMemoryMetricsStore(cfg)
+    rc.__dict__.update(logger=logging.getLogger("esrally.racecontrol"), metrics_store=rstore, cancelled=True, error=False, cfg=cfg)
+    pending = {w: collections.deque() for w in range(W)}
+    by_key, evs, requests = {}, [], []
+    key = lambda c, rel: by_key.get((c, driver.convert.seconds_to_ms(rel)), -1)
+    doc_key = lambda d: by_key.get((d["meta"]["client_id"], d["relative-time"]), -1)
+    lat = lambda docs: [doc_key(d) for d in docs if d["name"] == "latency"]
+    sid = 0
+    fedbuf = []
+    calc = drv.sample_post_processor.throughput_calculator
+    orig_calc = _t.MethodType(real(driver.ThroughputCalculator.calculate), calc)
+
+    def observed(samples, *a, **k):
+        fedbuf.extend(key(x.client_id, x.relative_time) for x in samples)
+        return orig_calc(samples, *a, **k)
+
+    calc.calculate = observed
+    joinpoints_done = 0
+    received_handovers = []
+
+    def wake(force):
+        w_, p_ = DA.WAKEUP_INTERVAL_SECONDS, DA.POST_PROCESS_INTERVAL_SECONDS
+        da.post_process_timer = (p_ - w_) if force else 0
+        store = drv.metrics_store
+        before = len(store.docs) if store is not None else 0
+        n_raw = len(drv.raw_samples)
+        fedbuf.clear()
+        DA.receiveMsg_WakeupMessage(da, _t.SimpleNamespace(payload=None), "self")
+        if force:
+            # what the periodic post-processing did, by its effects (the model: nothing once the race is finished)
+            stored = lat(store.docs[before:]) if store is not None else []
+            if store is not None or n_raw != len(drv.raw_samples):
+                evs.append({"e": "postprocess", "obs": {"stored": stored, "fed": list(fedbuf)}})
+            else:
+                evs.append({"e": "postprocess", "obs": {"stored": [], "fed": []}})
+
+    for step in case["script"]:
+        if step[0] == "requests":
+            _, w, b = step
+            for _ in range(b):
+                sid += 1
+                t = sid / 1024.0
+                normal = sid > case["warmup"]
+                deps = [[f"sub{k}", "search"] for k in range(case["deps"])]
+                dt = [{"dependent_timing": {"operation": o, "operation-type": ot, "absolute_time": 1000.0 + t, "request_start": t, "service_time": 0.0625}}
+                      for o, ot in deps] or None
+                q = workers[w].sampler
+                before = sim_race.qlen(q.q)
+                sampler_add(q, task, w, metrics.SampleType.Normal if normal else metrics.SampleType.Warmup, {}, 1000.0 + t, t, 0.5, 0.25, 0.125, None, 1,
+                            "ops", 0.25, None, dt)
+                acc = sim_race.qlen(q.q) > before
+                by_key[(w, driver.convert.seconds_to_ms(t))] = sid
+                requests.append({"sid": sid, "client": w, "normal": normal, "deps": len(deps), "step": joinpoints_done})
+                evs.append({"e": "request", "w": w, "sid": sid, "obs": {"accepted": acc, "sid": sid}})
+        elif step[0] == "ship":
+            w = step[1]
+            n0 = len(sent)
+            driver.Worker.send_samples(workers[w])
+            ids = [[key(x.client_id, x.relative_time) for x in m.samples] for m in sent[n0:]]
+            evs.append({"e": "ship", "w": w, "obs": {"shipped": ids[0] if len(ids) == 1 else None if not ids else ids}})
+            pending[w].extend(sent[n0:])
+        elif step[0] == "deliver":
+            w = step[1]
+            if pending[w]:
+                n0 = len(drv.raw_samples)
+                DA.receiveMsg_UpdateSamples(da, pending[w].popleft(), f"w{w}")
+                evs.append({"e": "deliverU", "w": w, "obs": {"received": [key(x.client_id, x.relative_time) for x in drv.raw_samples[n0:]]}})
+        elif step[0] in ("tick", "wake"):
+            wake(step[0] == "tick")
+        elif step[0] == "joinpoint":
+            w = step[1]
+            n0 = len(to_rc)
+            msg = pickle.loads(pickle.dumps(driver.JoinPointReached(w, [])))
+            DA.receiveMsg_JoinPointReached(da, msg, f"w{w}")
+            new = list(to_rc)[n0:]
+            handed = None
+            for m in new:
+                if isinstance(m, (driver.TaskFinished, driver.BenchmarkComplete)):
+                    handed = lat(pickle.loads(zlib.decompress(m.metrics)) if m.metrics else [])
+            evs.append({"e": "joinpoint", "obs": {"handed": handed, "closed": drv.metrics_store is None}})
+            if handed is not None:
+                joinpoints_done += 1
+                if armed and armed[-1] == DA.RESET_RELATIVE_TIME_MARKER and not case["test_mode"]:
+                    DA.receiveMsg_WakeupMessage(da, _t.SimpleNamespace(payload=armed.pop()), "self")
+        elif step[0] == "receive":
+            if to_rc:
+                m = to_rc.popleft()
+                before = len(rstore.docs)
+                if isinstance(m, driver.TaskFinished):
+                    rc.on_task_finished(m.metrics)
+                elif isinstance(m, driver.BenchmarkComplete):
+                    rc.on_benchmark_complete(m.metrics)
+                else:
+                    continue
+                evs.append({"e": "deliverR", "obs": {"added": lat(rstore.docs[before:])}})
+    # the end of the race: race control receives what is still in flight
+    while to_rc:
+        m = to_rc.popleft()
+        before = len(rstore.docs)
+        if isinstance(m, driver.TaskFinished):
+            rc.on_task_finished(m.metrics)
+        elif isinstance(m, driver.BenchmarkComplete):
+            rc.on_benchmark_complete(m.metrics)
+        else:
+            continue
+        evs.append({"e": "deliverR", "obs": {"added": lat(rstore.docs[before:])}})
+    m = ctx.model("samples", "dreplay", {"cap": 1 << 20, "factor": factor, "workers": W, "steps": N, "events": evs})
+    tags = m.get("tags", [])
+    if "diff" in m:
+        ctx.diff("step boundary replay", m["diff"].get("model"), {k: m["diff"].get(k) for k in ("at", "why", "event", "impl")})
+    else:
+        r = m["r"]
+        if r["in_flight"] != 0 or r["lost"] or not r["closed"] or r["step"] != N:
+            ctx.diff("model state at the end of the race (in flight, lost at close, closed, steps)", [0, [], True, N], [r["in_flight"], r["lost"], r["closed"], r["step"]])
+    # ---------------- direct oracle: the property on race control's store vs. the requests of the case ----------------
+    # every generated request was offered to a queue of the default capacity (never full), shipped and delivered before its worker's
+    # join point message, and the race has passed its last join point: one latency, service_time and processing_time record each
+    # (plus one service_time per dependent timing), with its client id and sample type; down-sampling may only remove
+    cls = "boundary" + ("+downsample" if factor > 1 else "")
+    finished = joinpoints_done == N
+    if not finished:
+        ctx.fail(cls + ":race-not-finished", f"{W} join point messages per step for {N} steps were handled but the driver handed over only {joinpoints_done} times",
+                 N, joinpoints_done)
+    got = collections.Counter()
+    for d in rstore.docs:
+        if d["name"] in REQUEST_METRICS:
+            got[(d["name"], doc_key(d), d["operation"], d["sample-type"], d["meta"].get("client_id"), d["task"])] += 1
+    want = collections.Counter()
+    for rq in requests:
+        st = "normal" if rq["normal"] else "warmup"
+        for name in REQUEST_METRICS:
+            want[(name, rq["sid"], "boundary", st, rq["client"], "boundary")] += 1
+        for k in range(rq["deps"]):
+            want[("service_time", rq["sid"], f"sub{k}", st, rq["client"], "boundary")] += 1
+    step_of = {rq["sid"]: rq["step"] for rq in requests}
+    if factor == 1:
+        if got != want:
+            missing, extra = sorted((want - got).items())[:4], sorted((got - want).items())[:4]
+            lost_steps = sorted({step_of.get(k[1]) for k in (want - got)})
+            ctx.fail(cls + ":records-lost-or-duplicated", f"{len(requests)} requests over {N} steps ({W} workers): race control's store does not hold exactly one latency, "
+                     f"service_time and processing_time record per request (steps of the missing records: {lost_steps})",
+                     {"records": sum(want.values()), "missing": missing}, {"records": sum(got.values()), "unexpected": extra})
+    else:
+        if got - want:
+            ctx.fail(cls + ":too-many-records", "records at race control that belong to no request, or twice", 0, sorted((got - want).items())[:4])
+        # down-sampling removes all records of a sample or none (dependent ones included), never more than (factor-1)/factor per call
+        per_sid = collections.Counter(k[1] for k in got.elements())
+        for rq in requests:
+            if per_sid.get(rq["sid"], 0) not in (0, 3 + rq["deps"]):
+                ctx.fail(cls + ":partial-sample", "some but not all records of a sample reached race control", 3 + rq["deps"], per_sid.get(rq["sid"]))
+                break
+        kept_min = sum(-(-len(e["obs"]["fed"]) // factor) for e in evs if e["e"] == "postprocess")
+        # samples post-processed at join points are not visible as `fed` per event; bound from below by the periodic calls only
+        if len(per_sid) < kept_min:
+            ctx.fail(cls + ":lost-without-cause", "fewer samples at race control than down-sampling of the periodic calls alone can explain", kept_min, len(per_sid))
+    left = {"queues": sum(sim_race.qlen(ws.sampler.q) for ws in workers), "shipments": sum(len(p_) for p_ in pending.values()), "raw": len(drv.raw_samples)}
+    if any(left.values()):
+        ctx.fail(cls + ":samples-left-behind", "after the last join point samples are still in a queue, a shipment or raw_samples", 0, left)
+    ctx.count("boundary-requests", len(requests))
+    ctx.count("boundary-ticks-before-last-joinpoint", sum(1 for t in tags if t.startswith("last-joinpoint-store-only")))
+    for t in tags:
+        if "joinpoint" in t:
+            ctx.count("boundary:" + t)
+    ctx.sig(["boundary", sorted(tags), W, N, factor, case["test_mode"], case["deps"] > 0], nontrivial=len(requests) > 0)
+
+
 STREAMS = [
     Stream("pipeline_on_simulated_races", gen, run, quick=320, thorough=100000, shards=16),
     Stream("pipeline_direct_sizes", gen_direct, run_direct, quick=160, thorough=12000, shards=16),
     Stream("driver_periodic_tick", gen_ticks, run_ticks, quick=200, thorough=20000, shards=4),
+    Stream("driver_step_boundaries", gen_boundaries, run_boundaries, quick=320, thorough=30000, shards=8),
 ]
